@@ -443,9 +443,25 @@ func (it *Interp) push(prefix []dec) {
 }
 
 type workList struct {
-	mu     sync.Mutex
-	items  [][]dec
-	active int
+	mu      sync.Mutex
+	items   [][]dec
+	active  int
+	reached map[string]bool // Reach labels already witnessed by some worker of this job
+}
+
+func (w *workList) isReached(label string) bool {
+	w.mu.Lock()
+	defer w.mu.Unlock()
+	return w.reached[label]
+}
+
+func (w *workList) markReached(label string) {
+	w.mu.Lock()
+	if w.reached == nil {
+		w.reached = map[string]bool{}
+	}
+	w.reached[label] = true
+	w.mu.Unlock()
 }
 
 // pop returns the next prefix; finished is true when no work is left and nobody is active.
@@ -625,6 +641,9 @@ func (it *Interp) Reach(label string, c *smt.Term) {
 	if c.IsFalse() {
 		return
 	}
+	if it.work != nil && it.work.isReached(label) {
+		return // another worker already holds a witness (a witness query is a full-model query and can be slow)
+	}
 	if env := it.sampleWitness(c); env != nil {
 		// a concrete witness found by sampling: no solver call needed
 		tape := make([]TapeEntry, len(it.P.Nondets))
@@ -634,6 +653,9 @@ func (it *Interp) Reach(label string, c *smt.Term) {
 				v = cv.Val
 			}
 			tape[i] = TapeEntry{Label: n.Label, Kind: n.Kind, Value: v.String()}
+		}
+		if it.work != nil {
+			it.work.markReached(label)
 		}
 		it.jr.Reached[label] = true
 		it.jr.Witness[label] = tape
@@ -659,6 +681,9 @@ func (it *Interp) Reach(label string, c *smt.Term) {
 	tape, _, err := it.tapeFromModel()
 	it.S.Pop()
 	if err == nil {
+		if it.work != nil {
+			it.work.markReached(label)
+		}
 		it.jr.Reached[label] = true
 		it.jr.Witness[label] = tape
 		if it.jr.WitnessCase == nil {
